@@ -182,11 +182,12 @@ def check_no_inline_processing_after_completion(c: Ctx) -> None:
     procs = [a for a in inline_awaits(c, u, br) if isinstance(a.value, ast.Call) and is_processing_call(c, u, a.value)]
     c.floor(len(procs), 1, 'inline process_event awaits')
     atom = f'{self_}.event_completed_signal.is_set()'
-    facts = Facts(lambda a: a == atom or a == 'holds_global_lock.get()' or a.isidentifier(), cg=c.cg, unit=u, taskvars=TASKVARS)  # (plain locals too: results of folded helpers)
+    atom2 = f'{self_}.event_completed_signal is not None and {atom}'  # "complete" spelled with the no-signal case in front (no signal: not complete either)
+    facts = Facts(lambda a: a in (atom, atom2) or a == 'holds_global_lock.get()' or a.isidentifier(), cg=c.cg, unit=u, taskvars=TASKVARS)  # (plain locals too: results of folded helpers)
     for a in procs:
         st = q.stmt_of(a)
         # paths may pass through the call itself (the loop comes back to it), so the call is not a barrier of the search
-        bad = [p for n in g.nodes_of(st) if (p := q.reach_search(g, [(g.entry, {})], lambda m, d, n=n: m is n and d.get(atom) not in ('F', 'Fy'), lambda m, d: False, facts, skip_exc_from=n)) is not None]  # an inline call that *raised* did not process the event to completion: only successful calls count
+        bad = [p for n in g.nodes_of(st) if (p := q.reach_search(g, [(g.entry, {})], lambda m, d, n=n: m is n and d.get(atom) not in ('F', 'Fy') and d.get(atom2) not in ('F', 'Fy'), lambda m, d: False, facts, skip_exc_from=n)) is not None]  # an inline call that *raised* did not process the event to completion: only successful calls count
         if not bad:
             c.ok(where(u, a), 'an event is processed inline only while the awaited event is known incomplete (signal tested since the last suspension)')
         else:
